@@ -47,10 +47,10 @@ class Spec:
         return 1200 if tier == "quick" else 12000
 
     def strategy(self, tier):
-        o = {"p_failflag": 20, "p_csum": 35,
+        o = {"p_failflag": 20, "p_csum": 35, "p_focus": 50,
              "weights": {"cmd": 35, "redo": 6, "query": 30, "edit": 14, "failflag": 6, "setdo": 4, "adddo": 1,
-                         "rmdo": 1, "rmtarget": 8, "mkpath": 3, "rmpath": 2, "ext": 2, "touch": 3, "mwrite": 4,
-                         "mremove": 3}}
+                         "rmdo": 1, "rmtarget": 8, "mkpath": 3, "rmpath": 2, "ext": 2, "touch": 3, "mwrite": 9,
+                         "mreplace": 3, "mremove": 8}}
         if tier == "thorough":
             o.update(max_targets=12, max_ops=28)
         return gen.histories(o)
